@@ -9,6 +9,7 @@ import time
 from typing import TYPE_CHECKING, Any
 
 from aiomysensors.exceptions import (
+    InvalidMessageError,
     MissingChildError,
     MissingNodeError,
     TooManyNodesError,
@@ -249,7 +250,10 @@ class IncomingMessageHandler(IncomingMessageHandlerBase):
         message_buffer: MessageBuffer,  # noqa: ARG003
     ) -> Message:
         """Process an internal version message."""
-        gateway.protocol_version = message.payload
+        try:
+            gateway.protocol_version = message.payload
+        except ValueError as err:
+            raise InvalidMessageError(err, message) from err
         return message
 
     @classmethod
@@ -329,7 +333,12 @@ class IncomingMessageHandler(IncomingMessageHandlerBase):
         if message.node_id not in gateway.nodes:
             raise MissingNodeError(message.node_id)
 
-        gateway.nodes[message.node_id].battery_level = round(float(message.payload))
+        try:
+            battery_level = round(float(message.payload))
+        except (ValueError, OverflowError) as err:
+            raise InvalidMessageError(err, message) from err
+
+        gateway.nodes[message.node_id].battery_level = battery_level
         return message
 
     @classmethod
